@@ -30,6 +30,8 @@ type smallHuffCodeTable struct {
 // | Code Length / Max Length | 12 - 16 |
 func (t *smallHuffCodeTable) GenerateForHeader(codes []huffCode, count []uint16, maxSymbol uint32) {
 	var countTotal, countTotalTmp [17]uint32
+	// entries of an earlier block or stream must not answer for codes this block leaves unassigned
+	t.ShortCodeLookup = [1 << distLookupBits]uint16{}
 	shortCodeLookup := t.ShortCodeLookup[:]
 
 	for i := 2; i < 17; i++ {
